@@ -649,6 +649,10 @@ func (ps params) set(m proto.Message) error {
 				break
 			}
 
+			if fd.IsList() || fd.IsMap() {
+				// Mutable(fd).Message() panics on a list or a map.
+				return status.Errorf(codes.InvalidArgument, "field %q is repeated and cannot be traversed", fd.FullName())
+			}
 			cur = cur.Mutable(fd).Message()
 		}
 	}
